@@ -46,8 +46,20 @@ def r_layering(ctx, cfg):
 
 
 def _admin_guard(P, f, node, addr_origin):
-    """is `node` dominated by  contract_data(storage, addr).admin == Some(sender)"""
-    for e, c in q.dominating_conditions(P, f, node):
+    """is `node` dominated by  contract_data(storage, addr).admin == Some(sender)  - written as that comparison, or as
+    `match &data.admin { Some(a) if a == &sender => .., _ => fail }` (the Some edge and the equality of its payload).
+    Returns the list of guarding edges (their sibling edges are the failing ones) or None."""
+    def is_admin_field(a):
+        a = peel(a)
+        return a[0] == "field" and a[2] == "admin" and peel(a[1])[0] == "ok" and peel(peel(a[1])[1])[0] == "call" and \
+            peel(peel(a[1])[1])[1] == "wasm::Wasm::contract_data" and same_origin(peel(peel(a[1])[1])[2][2], addr_origin) and \
+            is_param(peel(peel(a[1])[1])[2][1], "storage")
+    conds = q.dominating_conditions(P, f, node)
+    some_edge = None
+    for e, c in conds:
+        if c[0] == "variant_in" and c[2] == ("Some",) and is_admin_field(c[1]):
+            some_edge = e
+    for e, c in conds:
         if c[0] != "bool":
             continue
         pred, args, pol = c[1]
@@ -55,12 +67,10 @@ def _admin_guard(P, f, node, addr_origin):
             continue
         for a, b in (args, args[::-1]):
             a, b = peel(a), peel(b)
-            lhs = a[0] == "field" and a[2] == "admin" and peel(a[1])[0] == "ok" and peel(peel(a[1])[1])[0] == "call" and \
-                peel(peel(a[1])[1])[1] == "wasm::Wasm::contract_data" and same_origin(peel(peel(a[1])[1])[2][2], addr_origin) and \
-                is_param(peel(peel(a[1])[1])[2][1], "storage")
-            rhs = b[0] == "agg" and b[1].endswith("Option::Some") and is_param(b[2][0][1], "sender")
-            if lhs and rhs:
-                return e
+            if is_admin_field(a) and b[0] == "agg" and b[1].endswith("Option::Some") and is_param(b[2][0][1], "sender"):
+                return [e]
+            if some_edge is not None and a[0] == "some" and is_admin_field(a[1]) and is_param(b, "sender"):
+                return [some_edge, e]
     return None
 
 
@@ -74,9 +84,12 @@ def _writes_after(f, cfgf, edge):
     return out
 
 
-def _failing_edge(P, f, cfgf, guard_edge):
-    _, bid, idx = guard_edge
-    return [e for e, v, n, tb in cfgf.switch_edges(bid) if e != guard_edge]
+def _failing_edge(P, f, cfgf, guard_edges):
+    out = []
+    for guard_edge in guard_edges:
+        _, bid, idx = guard_edge
+        out += [e for e, v, n, tb in cfgf.switch_edges(bid) if e != guard_edge and not cfgf.is_unreachable_block(tb)]
+    return out
 
 
 def r_update_admin(ctx, cfg):
